@@ -399,7 +399,7 @@ func (p *PHYPayload) EncryptFOpts(nwkSEncKey AES128Key) error {
 // structures.
 func (p *PHYPayload) DecryptFOpts(nwkSEncKey AES128Key) error {
 	if err := p.EncryptFOpts(nwkSEncKey); err != nil {
-		return nil
+		return err
 	}
 
 	return p.DecodeFOptsToMACCommands()
